@@ -340,10 +340,15 @@ Fixpoint conv_v2 (reraises reset contained : bool) (sc : script) (user_text llm_
   end.
 
 (* ---------- the model instantiated with what the current source says ---------- *)
-Definition turn_v1_now := turn_v1 dispatch_reraises v1_context_honours_hide.
-Definition conv_v1_now := conv_v1 dispatch_reraises v1_context_honours_hide.
-Definition turn_v2_now := turn_v2 dispatch_reraises v2_flag_reset_on_failure v2_action_event_errors_contained.
-Definition conv_v2_now := conv_v2 dispatch_reraises v2_flag_reset_on_failure v2_action_event_errors_contained.
+(* `ORaise` stands for ANY exception object.  The dispatcher step "(None, failed)" holds for all of
+   them only if the handler does not evaluate the exception (an exception whose __str__ raises,
+   formatted eagerly, escapes): if the source formats it eagerly, SOME raise escapes - the
+   instance below then (conservatively) lets every raise escape, and the theorems stop checking. *)
+Definition escapes_now : bool := dispatch_reraises || negb dispatch_handler_lazy.
+Definition turn_v1_now := turn_v1 escapes_now v1_context_honours_hide.
+Definition conv_v1_now := conv_v1 escapes_now v1_context_honours_hide.
+Definition turn_v2_now := turn_v2 escapes_now v2_flag_reset_on_failure v2_action_event_errors_contained.
+Definition conv_v2_now := conv_v2 escapes_now v2_flag_reset_on_failure v2_action_event_errors_contained.
 
 (* ---------- sanity ---------- *)
 Definition ex_cfg := mkV 2 2 true.
